@@ -40,6 +40,10 @@ type Case struct {
 	Threads int      `json:"th"`                // number of forwarding threads (1..4)
 	Local   bool     `json:"local,omitempty"`   // scope of the receiving face
 	NoReasm bool     `json:"noreasm,omitempty"` // IsReassemblyEnabled = false
+	// Toggled: before the frames arrive the face's options were changed at run time (faces/update does
+	// that): reassembly switched off and on again (or on and off again when NoReasm), ending with the
+	// options above
+	Toggled bool `json:"toggled,omitempty"`
 	Frames  [][]byte `json:"frames"`            // the frames, in arrival order
 	Chunks  []int    `json:"chunks,omitempty"`  // stream unit: sizes of successive reads, cycled (<=0: as much as offered)
 }
@@ -114,6 +118,12 @@ func newRig(c Case, capacity int) *rig {
 	opts.IsLocalCachePolicyEnabled = true
 	r.ls = face.MakeNDNLPLinkService(tr, opts)
 	r.ls.SetFaceID(400)
+	if c.Toggled {
+		flipped := opts
+		flipped.IsReassemblyEnabled = !opts.IsReassemblyEnabled
+		r.ls.SetOptions(flipped)
+		r.ls.SetOptions(opts)
+	}
 	return r
 }
 
@@ -697,6 +707,7 @@ func genCase(t *rapid.T) Case {
 	c.Threads = rapid.IntRange(1, 4).Draw(t, "threads")
 	c.Local = rapid.IntRange(0, 3).Draw(t, "local") == 0
 	c.NoReasm = rapid.IntRange(0, 9).Draw(t, "noReasm") == 0
+	c.Toggled = rapid.IntRange(0, 5).Draw(t, "toggled") == 0
 	nP := rapid.IntRange(1, 3).Draw(t, "nPkts")
 	var pkts [][]byte
 	for i := 0; i < nP; i++ {
